@@ -55,7 +55,9 @@ func instances(p *Probes, nestedAt map[int]bool) (ins []tryInstance, ok bool) {
 	return ins, open < 0
 }
 
-var reMarker = regexp.MustCompile(`[\[\]<>]`)
+// text markers ([t03]) and state-probe labels (<ctx:) - what must not appear in the error text the
+// catch variable prints; the wording of the error itself is free
+var reMarker = regexp.MustCompile(`\[[a-z]+[0-9]+\]|\[CATCH\]|<[a-z]+:`)
 
 func RunC13(env *sim.Env) {
 	t := env.Tape
